@@ -9,6 +9,12 @@
  * NULL test. (A loop contract over a symbolic position in a 257-node list did
  * not finish: > 10 min / 20 GB; plain unwinding keeps every pointer concrete.)
  *
+ * Two configurations:
+ *  DR_N = 257 (proved): count / same_block / delta_fits for every list.
+ *  DR_N <= 33, -DDR_BLK (bounded, lists of at most DR_N nodes): additionally
+ *   one_block / maximal, which compare the function's byte count with an
+ *   independently accumulated one (SAT does not finish that for 257 nodes).
+ *
  *  C03.dir.run_limits.count       non-empty list => 1 <= c <= 256, c <= length
  *  C03.dir.run_limits.same_block  the c entries share inode_ref >> 16
  *  C03.dir.run_limits.delta_fits  head number + (s16)delta reproduces the
@@ -39,7 +45,9 @@ void harness(void)
 
 	VERIF_ASSUME(n <= DR_N);
 
-	pre[0] = 0;
+	size0 = ((size_t)offset + sizeof(sqfs_dir_header_t)) %
+		SQFS_META_BLOCK_SIZE;
+	pre[0] = size0;	/* pre[i]: bytes in the block after i entries */
 	for (i = 0; i < DR_N; ++i) {
 		nodes[i].e.inode_ref = verif_nd_u64("ref");
 		nodes[i].e.inode_num = verif_nd_u32("num");
@@ -48,15 +56,14 @@ void harness(void)
 		VERIF_ASSUME(nodes[i].e.name_len >= 1 &&
 			     nodes[i].e.name_len <= ((size_t)1 << 40));
 		nodes[i].e.next = (i + 1 < n) ? &nodes[i + 1 < DR_N ? i + 1 : 0].e : NULL;
-		pre[i + 1] = pre[i] + sizeof(sqfs_dir_node_t) +
-			nodes[i].e.name_len;
+		pre[i + 1] = pre[i] + (sizeof(sqfs_dir_node_t) +
+				       nodes[i].e.name_len);
 	}
+#if DR_N > SQFS_MAX_DIR_ENT
 	/* the 257th node is never followed: its next pointer is arbitrary */
 	if (verif_nd_bool("more"))
 		nodes[DR_N - 1].e.next = &nodes[0].e;
-
-	size0 = ((size_t)offset + sizeof(sqfs_dir_header_t)) %
-		SQFS_META_BLOCK_SIZE;
+#endif
 
 	c = get_conseq_entry_count(offset, n > 0 ? &nodes[0].e : NULL);
 
@@ -73,8 +80,9 @@ void harness(void)
 			     nodes[w].e.inode_num && d16 != -32768,
 			     "C03.dir.run_limits.delta_fits");
 	}
+#ifdef DR_BLK
 	if (c >= 2)
-		VERIF_ASSERT(size0 + pre[c] <= SQFS_META_BLOCK_SIZE,
+		VERIF_ASSERT(pre[c] <= SQFS_META_BLOCK_SIZE,
 			     "C03.dir.run_limits.one_block");
 	if (c < n && c < 256 && c >= 1) {
 		sqfs_u32 d = nodes[c].e.inode_num - nodes[0].e.inode_num;
@@ -82,15 +90,19 @@ void harness(void)
 		VERIF_ASSERT((nodes[c].e.inode_ref >> 16) !=
 			     (nodes[0].e.inode_ref >> 16) ||
 			     (sqfs_s32)d > 32767 || (sqfs_s32)d < -32767 ||
-			     size0 + pre[c + 1] > SQFS_META_BLOCK_SIZE,
+			     pre[c + 1] > SQFS_META_BLOCK_SIZE,
 			     "C03.dir.run_limits.maximal");
 	}
+	VERIF_COVER(c == 2 && n > 2 && pre[3] > SQFS_META_BLOCK_SIZE &&
+		    pre[2] <= SQFS_META_BLOCK_SIZE);
+#endif
 
+#if DR_N > SQFS_MAX_DIR_ENT
 	VERIF_COVER(c == 256 && n == 257);
+#endif
 	VERIF_COVER(c == 1 && n > 1);
 	VERIF_COVER(c == 3 && n == 3);
 	VERIF_COVER(c == 0);
 	VERIF_COVER(c >= 2 && w == c - 1 &&
 		    nodes[w].e.inode_num < nodes[0].e.inode_num);
-	VERIF_COVER(c == 2 && n > 2 && size0 + pre[3] > SQFS_META_BLOCK_SIZE);
 }
